@@ -1142,6 +1142,8 @@ func (c *Ctx) checkIdentTests(r *Report) {
 	}
 	r.Floor("C05.R10", 6)
 	// R13: quote() keeps its argument as code: a register node inside it would be printed / unquoted instead of the name
+	r.Rule("C05.R15", "no register for a name CreateOrSet refuses: setupRegister / MakeRegister are called on the false edge of object.IsExtraFunction(name) (the Constant(name) half is C19.R4)")
+	c.checkNoRegisterForRefusedNames(r, "C05.R15")
 	r.Rule("C05.R14", "a register is the only home of its name: in the REGISTER arm of evalAssignment no binding call (CreateOrSet / Set / SetNoChecks) is made")
 	c.checkRegisterArmBindsNothing(r, "C05.R14")
 	r.Rule("C05.R13", "a name that the body quotes keeps its variable: ModifyRegister aborts the rewrite (returns cont=false) on an edge where the builtin's token was tested against QUOTE")
